@@ -15,6 +15,10 @@ pub const CLASS_CONTENTS: &[&str] = &[
     "abc", "_x", "x1", "end", "nil", "function", "é", "été", "ключ", "名前", "größe_2", "ß", "1a", "9", "",
     " ", "  ", "\t", "12", " 12 ", "0x10", "-5", "- 5", "1e2", "1e400", ".5", "5.", "-", "+", "--", "0x", "1_0",
     "a b", "a-b", "a.b", "Été", "_é", "é1", "١٢", "ⅷ", "true", "inf", "nan", "-0", "0b11", "\\n",
+    // byte strings (written with escapes): not UTF-8 / UTF-8 mixed with stray bytes, ending in an
+    // escaped byte or in a plain one, control byte followed by a digit, NUL, truncated sequences
+    "\\255\\254", "\\0\\255", "\\x89PNG\\r\\n\\x1a\\n", "a\\255", "\\255a", "\\200\\0012", "é\\255", "\\xC3", "\\xE2\\x82",
+    "\\3\\4\\200", "\\1\\0019", "\\x7f\\x80", "\\240\\159\\146", "\\u{D800}x", "\\255\\n", "\\n\\255", "\\0", "\\\\\\255", "\\'\\255",
 ];
 
 fn quoted(content: &str, style: usize) -> String {
@@ -27,6 +31,19 @@ fn quoted(content: &str, style: usize) -> String {
     }
 }
 
+/// literals spanning several lines, in every string form (enumerated: each goes through every
+/// generator with no rule and through every rule alone)
+pub const MULTILINE_TEXTS: &[&str] = &[
+    "local s = `a\\\nb{x}c`\nreturn s\n",
+    "local s = `{x}\\z\n   y`\nreturn s\n",
+    "local s = `\\\n`\nlocal t = `\\z\n\n`\nreturn s, t\n",
+    "local s = `{a}mid\\\r\ndle{b}`\nreturn s\n",
+    "f(`one\\\ntwo{1}three\\\nfour{2}\\z\n  five`, `é\\\n€{`in\\\nner`}`)\nreturn `last\\\n` -- c\n",
+    "local q = 'a\\\nb'\nlocal r = \"\\z\n   x\\\ny\"\nlocal l = [[\nline\n]]\nlocal m = [==[\r\nx]==]\nreturn q .. r .. l .. m\n",
+    "local t = {\n  [`k\\\n{1}`] = `v{2}\\z\n  w`,\n}\nprint(`{t}\\\n`)\n",
+    "--[[ multi\nline ]] local s = `x{--[[ c\n ]] 1}\\\ny` --[==[\n]==]\nreturn s\n",
+];
+
 /// one program per content: the literal in every operand / key / argument position
 pub fn class_program(content: &str, rotate: usize) -> String {
     const TEMPLATES: &[&str] = &[
@@ -35,7 +52,7 @@ pub fn class_program(content: &str, rotate: usize) -> String {
         "local a11 = @ == 1", "local a12 = @ < 'a'", "local a13 = not @", "local a14 = @ and 1 or 2",
         "local a15 = - - @", "local a16 = (@) + (@)", "local t = { [ @ ] = 1, @ }", "local v = t[ @ ]", "t[ @ ] = 2",
         "t[ @ ]()", "f(@)", "f @", "obj:m(@)", "local n = (@):len()", "local s = `{@}`", "if @ then end",
-        "a17 += @", "local a18 = if @ then @ else 1", "local a19 = t[ @ ][ @ ]", "t[ @ ].x = t.x[ @ ]", "return @",
+        "a17 += @", "local a18 = if @ then @ else 1", "local a20 = 'PK' .. @", "local a21 = @ .. '\\3\\4\\200'", "local a22 = @ .. @", "local a19 = t[ @ ][ @ ]", "t[ @ ].x = t.x[ @ ]", "return @",
     ];
     let mut out = String::new();
     for (i, template) in TEMPLATES.iter().enumerate() {
@@ -484,20 +501,76 @@ impl<'r> Gen<'r> {
         self.put(&literal);
     }
 
+    /// a quoted literal made of random items: plain ASCII, valid multi-byte characters, escaped
+    /// bytes (decimal / hex, >= 128 or control), so that valid and invalid UTF-8 values, values
+    /// ending in an escaped or in a plain byte, and control bytes followed by digits all occur
+    fn byte_string(&mut self) {
+        let quote = *self.rng.pick(&['\'', '"']);
+        let mut literal = String::new();
+        literal.push(quote);
+        for _ in 0..(1 + self.rng.below(6)) {
+            match self.rng.below(8) {
+                0 => literal.push(*self.rng.pick(&['a', 'Z', ' ', '0', '7', '9', '-', '[', ']', '='])),
+                1 => literal.push_str(*self.rng.pick(&["é", "€", "𝄞", "ß"])),
+                2 => literal.push_str(&format!("\\{}", 128 + self.rng.below(128))),
+                3 => literal.push_str(&format!("\\x{:02x}", 128 + self.rng.below(128))),
+                4 => literal.push_str(&format!("\\{}", self.rng.below(32))),
+                5 => literal.push_str(&format!("\\{:03}", self.rng.below(256))),
+                6 => literal.push_str(*self.rng.pick(&["\\n", "\\r", "\\t", "\\0", "\\\\", "\\'", "\\\"", "\\a", "\\x1a"])),
+                _ => literal.push_str(*self.rng.pick(&["\\xC3", "\\xE2\\x82", "\\xF0\\x9F", "\\u{D800}", "\\u{7FF}", "\\xC3\\xA9"])),
+            }
+        }
+        literal.push(quote);
+        self.put(&literal);
+    }
+
     fn string(&mut self) {
-        if self.rng.chance(1, 2) {
-            return self.class_string();
+        match self.rng.below(6) {
+            0 | 1 | 2 => return self.class_string(),
+            3 => return self.byte_string(),
+            _ => {}
         }
         let s = *self.rng.pick(&[
             "'a'", "\"b\"", "''", "\"\"", "[[long]]", "[==[ ]] ]==]", "'é€'", "\"\\n\\t\\\\\"", "'\\65\\x41\\u{48}'",
             "\"\\z\n   x\"", "[[\nline]]", "'it\\'s'", "\"𝄞\"", "'\\u{10FFFF}'", "\"\\255\"", "'--not a comment'",
-            "\"a\\\nb\"",
+            "\"a\\\nb\"", "'\\x89PNG\\r\\n\\x1a\\n'", "'\\255\\254'", "'\\0\\255'", "'PK' .. '\\3\\4\\200'", "\"\\200\\0012\"",
+            "'a\\\r\nb'", "\"\\z\r\n\t x\\z\n\ny\"", "[[\r\nline]]", "[=[\n\n]=]",
         ]);
         self.put(s);
     }
 
+    /// a literal part of an interpolated string; half of them span several lines
+    fn interp_literal(&mut self) -> &'static str {
+        *self.rng.pick(&[
+            "", "a", "é€", " x ", "\\n", "\\{", "\\`", "a\\\nb", "\\\n", "\\z\n   y", "mid\\\r\ndle", "\\z\n\n  ", "x\\\n\\\ny",
+            "é\\z\r\n €", "\\\n\\z\n", "tail\\\n",
+        ])
+    }
+
     fn interp(&mut self, depth: u32) {
-        match self.rng.below(6) {
+        match self.rng.below(12) {
+            6 => self.put("`a\\\nb{x}c`"),
+            7 => self.put("`{x}\\z\n   y`"),
+            8 => self.put("`\\\n`"),
+            9 => self.put("`{a}mid\\\r\ndle{b}`"),
+            10 | 11 => {
+                // literal parts (single- and multi-line) alternating with values
+                self.out.push('`');
+                let parts = 1 + self.rng.below(3);
+                for i in 0..parts {
+                    let literal = self.interp_literal();
+                    self.out.push_str(literal);
+                    if i + 1 < parts || self.rng.chance(1, 2) {
+                        self.out.push('{');
+                        self.expr(depth + 3);
+                        self.out.push('}');
+                    }
+                }
+                let literal = self.interp_literal();
+                self.out.push_str(literal);
+                self.out.push('`');
+                self.ws();
+            }
             0 => self.put("`plain`"),
             1 => self.put("``"),
             2 => {
